@@ -51,9 +51,25 @@ Definition proc_of (w : wkind) (k : key) : list (eff * bool) :=
 
 Record case := mkcase {
   c_kind : wkind; c_key : key; c_pl : payload; c_F : list fk; c_fc : fk; c_d0 : fs;
-  c_names : list fname; c_keys : list key; c_expected : Z }.
+  c_names : list fname; c_keys : list key; c_retry : bool; c_expected : Z }.
+
+Definition first_run (c : case) : result :=
+  run (proc_of (c_kind c) (c_key c)) (cleanup_of (c_key c)) (c_pl c) (c_F c) (c_fc c) (fresh_st (c_d0 c)).
+
+(* the same operation with the same content retried without fault on the directory the first attempt
+   left (by the same process or, if it died, by a restarted one: the temporary-file name of the retrying
+   process is not part of the observation) *)
+Definition is_tmp (f : fname) : bool := match f with FTmp _ => true | _ => false end.
+Definition retry_obs (c : case) : list (list Z) :=
+  let r2 := run (proc_of (c_kind c) (c_key c)) (cleanup_of (c_key c)) (c_pl c) [] FNone
+                (fresh_st (disk (fin (first_run c)))) in
+  let d := disk (fin r2) in
+  [ enc_out (out r2);
+    flat_map (fun f => enc_content (lookup f d) ++ [-1]) (filter (fun f => negb (is_tmp f)) (c_names c));
+    flat_map (fun k => zb (r_contains d k) :: enc_ans (r_get d k) ++ [-1]) (c_keys c);
+    [zn (r_len d)];
+    obs_iter d (c_keys c) ].
 
 Definition model_obs (c : case) : list (list Z) :=
-  observe (run (proc_of (c_kind c) (c_key c)) (cleanup_of (c_key c)) (c_pl c) (c_F c) (c_fc c) (fresh_st (c_d0 c)))
-          (c_names c) (c_keys c).
+  observe (first_run c) (c_names c) (c_keys c) ++ (if c_retry c then retry_obs c else []).
 Definition check_case (c : case) : bool := Z.eqb (hash_zll 0 (model_obs c)) (c_expected c).
